@@ -423,20 +423,23 @@ func continueTo(s *scenario, a *action, img image, tgt int) (res contRes) {
 				res.err = "panic"
 			}
 		}()
-		b := s.Blocks[tgt]
-		if a.Kind == "append" {
-			z.Store(b.Wo)
-		}
-		if os.Getenv("C11_DEBUG") != "" {
-			log.Global.SetOutput(os.Stderr)
-			defer log.Global.SetOutput(io.Discard)
-		}
-		if err := z.Hc.SetCurrentHeader(b.Wo); err != nil {
-			res.err = errClass(err)
-			if os.Getenv("C11_DEBUG") != "" {
-				fmt.Fprintln(os.Stderr, "C11_DEBUG continue error:", err)
+		// under hc.headermu like Slice.Append (the worker's ticker takes the same lock)
+		z.Locked(func() {
+			b := s.Blocks[tgt]
+			if a.Kind == "append" {
+				z.Store(b.Wo)
 			}
-		}
+			if os.Getenv("C11_DEBUG") != "" {
+				log.Global.SetOutput(os.Stderr)
+				defer log.Global.SetOutput(io.Discard)
+			}
+			if err := z.Hc.SetCurrentHeader(b.Wo); err != nil {
+				res.err = errClass(err)
+				if os.Getenv("C11_DEBUG") != "" {
+					fmt.Fprintln(os.Stderr, "C11_DEBUG continue error:", err)
+				}
+			}
+		})
 	}()
 	head := z.Hc.CurrentHeader()
 	res.Head = s.idOfHash(head.Hash())
